@@ -172,3 +172,8 @@ Theorem closed_code_sees_only_its_environment_refuted :
   ~ (forall c U free k, ~ In k free -> fv_memq k (c_fv c) = None -> ctx_cell (enter_synclo c U free) k = env_cell U k).
 Proof. exact closed_code_sees_only_its_environment_refuted_proof. Qed.
 Print Assumptions closed_code_sees_only_its_environment_refuted.
+
+Theorem ident_lookup_exact : forall c E free k,
+  ~ In k free -> fv_memq k (c_fv c) = None -> ident_cell c E free k = env_cell E k.
+Proof. exact ident_lookup_exact_proof. Qed.
+Print Assumptions ident_lookup_exact.
